@@ -317,7 +317,18 @@ def safe_run_real(chk: PropCheck, case: dict, limit: Optional[float] = None) -> 
     except CaseTimeout as e:
         return {"__timeout__": str(e)}
     except Exception as e:
-        return {"__harness_exception__": f"{type(e).__name__}: {e}", "tb": traceback.format_exc()[-1500:]}
+        # an exception that comes out of stackscope itself (the innermost frames of the traceback are the library's) is the
+        # implementation's behaviour on this input, not a failure of the harness
+        tb = e.__traceback__
+        files = []
+        while tb is not None:
+            files.append(tb.tb_frame.f_code.co_filename)
+            tb = tb.tb_next
+        from_lib = bool(files) and str(REPO / "stackscope") in files[-1] and "_tests" not in files[-1]
+        d = {"__harness_exception__": f"{type(e).__name__}: {e}", "tb": traceback.format_exc()[-1500:]}
+        if from_lib:
+            d["__raised_by_implementation__"] = True
+        return d
 
 
 def main_check(chk: PropCheck, argv: Optional[List[str]] = None) -> int:
@@ -415,6 +426,9 @@ def main_check(chk: PropCheck, argv: Optional[List[str]] = None) -> int:
         if isinstance(r, dict) and "__timeout__" in r:
             oracle_fail.append((i, f"did not terminate: {r['__timeout__']}"))
             continue
+        if isinstance(r, dict) and r.get("__raised_by_implementation__"):
+            oracle_fail.append((i, f"the call into stackscope raised {r['__harness_exception__']} (innermost frame inside the library)"))
+            continue
         if isinstance(r, dict) and "__harness_exception__" in r:
             continue
         try:
@@ -479,13 +493,23 @@ def main_check(chk: PropCheck, argv: Optional[List[str]] = None) -> int:
         broken.append(f"harness could not observe {len(harness_exc)} cases; first: case={json.dumps(cases[i])[:400]} {reals[i]['__harness_exception__']} {reals[i].get('tb','')[-600:]}")
 
     searched = 0
-    def fails(c):
-        r = safe_run_real(chk, c)
+
+    def judge(c, r):
         if isinstance(r, dict) and "__timeout__" in r:
             return "did not terminate"
+        if isinstance(r, dict) and r.get("__raised_by_implementation__"):
+            return f"the call into stackscope raised {r['__harness_exception__']} (innermost frame inside the library)"
         if isinstance(r, dict) and "__harness_exception__" in r:
             return None
         return chk.oracle(c, r)
+
+    def show_real(c, r):
+        if isinstance(r, dict) and ("__timeout__" in r or "__harness_exception__" in r):
+            return r
+        return chk.canon(c, r)
+
+    def fails(c):
+        return judge(c, safe_run_real(chk, c))
 
     def bounded_shrink(case):
         t_s = time.time()
@@ -504,8 +528,8 @@ def main_check(chk: PropCheck, argv: Optional[List[str]] = None) -> int:
         for i, f in unlisted[:3]:
             case = bounded_shrink(cases[i])
             real = safe_run_real(chk, case)
-            p = write_replay(pid, {"property": pid, "case": case, "failure": chk.oracle(case, real) or f,
-                                   "observed": chk.canon(case, real) if not (isinstance(real, dict) and "__timeout__" in real) else real,
+            p = write_replay(pid, {"property": pid, "case": case, "failure": judge(case, real) or f,
+                                   "observed": show_real(case, real),
                                    "model": model_out[i], "seed": seed, "tier": tier,
                                    "rerun": f"./check {pid} --replay <this file>"})
             violations.append((f, p))
@@ -516,9 +540,7 @@ def main_check(chk: PropCheck, argv: Optional[List[str]] = None) -> int:
         for c in chk.search_cases(srng):
             searched += 1
             r = safe_run_real(chk, c)
-            if isinstance(r, dict) and "__harness_exception__" in r:
-                continue
-            f = f"did not terminate: {r['__timeout__']}" if isinstance(r, dict) and "__timeout__" in r else chk.oracle(c, r)
+            f = judge(c, r)
             if f and match_known(c, r, f) is None:
                 found = (c, f)
                 break
@@ -527,8 +549,8 @@ def main_check(chk: PropCheck, argv: Optional[List[str]] = None) -> int:
         if found:
             case = bounded_shrink(found[0])
             real = safe_run_real(chk, case)
-            p = write_replay(pid, {"property": pid, "case": case, "failure": chk.oracle(case, real) or found[1],
-                                   "observed": chk.canon(case, real) if not (isinstance(real, dict) and "__timeout__" in real) else real,
+            p = write_replay(pid, {"property": pid, "case": case, "failure": judge(case, real) or found[1],
+                                   "observed": show_real(case, real),
                                    "broken": broken, "seed": seed, "tier": tier})
             violations.append((found[1], p))
         else:
